@@ -45,6 +45,16 @@ def new_grid(hs, ver):
     return g
 
 
+def prepare(hs, g, path, n):
+    """the (harmless) step that precedes the store on some paths"""
+    if path == 'colmeta_set_assigned':
+        g.column['e' + str(n)] = {}          # the README idiom: a plain dict, tags are stored into it afterwards
+    elif path == 'colmeta_set_assigned_mo':
+        g.column['f' + str(n)] = hs.MetadataObject()
+    elif path == 'colmeta_append_reassigned':
+        g.column['a'] = {'u': 'y'}
+
+
 def store(hs, g, path, kind, n):
     v = val(hs, kind)
     k = 'k'          # the same tag on every step: a second store overwrites the first
@@ -87,6 +97,12 @@ def store(hs, g, path, kind, n):
         g.metadata.extend([(k, v)]); return lambda: g.metadata[k] is v
     if path == 'colmeta_set':
         g.column['a'][k] = v; return lambda: g.column['a'][k] is v
+    if path == 'colmeta_set_assigned':
+        g.column['e' + str(n)][k] = v; return lambda: g.column['e' + str(n)][k] is v
+    if path == 'colmeta_set_assigned_mo':
+        g.column['f' + str(n)][k] = v; return lambda: g.column['f' + str(n)][k] is v
+    if path == 'colmeta_append_reassigned':
+        g.column['a'].append(k, v); return lambda: g.column['a'][k] is v
     if path == 'colmeta_append':
         g.column['a'].append(k, v); return lambda: g.column['a'][k] is v
     if path == 'meta_overwrite':
@@ -139,6 +155,7 @@ def replay_case(hs, c):
             path = path[5:]
         else:
             orig = None
+        prepare(hs, g, path, n)
         before = snapshot(g)
         try:
             check = store(hs, g, path, kind, n)
@@ -202,15 +219,36 @@ def deciders(hs, ver, kind):
         return g
 
     def grid_with_colmeta_edit():
+        # behind the gate's back (the store the gate sees is 'x'): the writers judge what they are given
         g = hs.Grid(version=ver, columns=[('a', [])])
-        d = {'t': 'x'}
-        g.column['c'] = d
-        d['t'] = v
+        g.column['c'] = {'t': 'x'}
+        g.column['c']._values['t'] = v
         g.append({'a': 'x'})
         return g
     for where, mk in (('cell', grid_with_cell_edit), ('colmeta', grid_with_colmeta_edit)):
         for fmt, mode in (('zinc', hs.MODE_ZINC), ('json', hs.MODE_JSON)):
             out['%s_writer_grid_%s' % (fmt, where)] = dec(lambda: hs.dump(mk(), mode=mode))
+    # the scalar readers are given the declared version by the caller
+    out['zinc_scalar_reader'] = dec(lambda: hs.parse_scalar(zspell, mode=hs.MODE_ZINC, version=hs.Version(ver)))
+    out['json_scalar_reader'] = dec(lambda: hs.parse_scalar(json.dumps(jspell), mode=hs.MODE_JSON, version=hs.Version(ver)))
+    if kind == 'xstr' and out['json_scalar_reader'] == 'accept' and \
+            not isinstance(hs.parse_scalar(json.dumps(jspell), mode=hs.MODE_JSON, version=hs.Version(ver)), hs.XStr):
+        out['json_scalar_reader'] = 'refuse'
+    # a grid that came out of a reader is gated like one that was built: its column metadata too
+    for fmt, text_, mode in (('zinc', 'ver:"%s"\na dis:"x"\n1\n' % ver, hs.MODE_ZINC),
+                             ('json', json.dumps({'meta': {'ver': ver}, 'cols': [{'name': 'a', 'dis': 's:x'}],
+                                                  'rows': [{'a': 'n:1'}]}), hs.MODE_JSON)):
+        def parsed_store(where, text_=text_, mode=mode):
+            g = hs.parse(text_, mode=mode)
+            if where == 'colmeta':
+                g.column['a']['k'] = v
+                assert g.column['a']['k'] is v
+            elif where == 'meta':
+                g.metadata['k'] = v
+            else:
+                g.append({'a': v})
+        for where in ('colmeta', 'meta', 'row'):
+            out['grid_%s_parsed_%s' % (fmt, where)] = dec(lambda: parsed_store(where))
     if kind == 'xstr' and out['json_reader'] == 'accept':
         # under a pre-3.0 version "x:..." may legitimately be read as something else than an XStr
         # (e.g. the 2.0 Remove): only an XStr in the result counts as accepting the 3.0-only kind
